@@ -210,6 +210,43 @@ theorem hinv_step (s : State) (a : Act) (hi : HInv s) (ha : HostWrites a) : HInv
       have := process_follows s.host c.p _ a4
       rw [p2]; exact this
 
+  | snapshotH i =>
+    simp only [step]
+    cases hcont : s.host.content with
+    | none => exact absurd hcont wc
+    | some v0 =>
+      simp only [Option.isSome_some, if_true]
+      have hserve : snapServe s.host = { s.host with served := s.host.content } := by simp [snapServe, hcont]
+      rw [hserve]
+      refine ⟨⟨wt, wj, ws, wc, fun _ => rfl⟩, ?_⟩
+      -- every client still follows the host: its cache now equals its content, which it already did when no event is pending
+      have hfol : ∀ c ∈ s.clients, ∀ pend : Prop, Follows s.host pend c.p →
+          Follows { s.host with served := s.host.content } pend c.p := by
+        intro c _ pend h
+        rcases h with h | h | h | h
+        · exact Or.inl h
+        · exact Or.inr (Or.inl h)
+        · by_cases h0 : s.host.events = 0
+          · right; right; left; rw [we h0] at h; exact h
+          · right; left; show s.host.events > 0; omega
+        · by_cases h0 : s.host.events = 0
+          · right; right; right; rw [we h0] at h; exact h
+          · right; left; show s.host.events > 0; omega
+      apply forall_onClient
+      · intro c hcm _
+        obtain ⟨a1, a2, a3, a4⟩ := hc c hcm
+        exact ⟨a1, a2, a3, hfol c hcm _ a4⟩
+      · intro c hcm _
+        obtain ⟨a1, a2, a3, _⟩ := hc c hcm
+        refine ⟨a1, a2, ?_, Or.inl (Or.inl (by simp [cSnapshot]))⟩
+        intro o ho
+        simp only [cSnapshot, List.mem_append, List.mem_singleton] at ho
+        rcases ho with (ho | ho) | ho
+        · exact a3 o (List.mem_append_left _ ho)
+        · exact ho
+        · exact a3 o (List.mem_append_right _ ho)
+
+-- the `snapshotH` case: a join during a host-writer epoch keeps the invariant
 theorem hinv_run (s : State) (as : List Act) (hi : HInv s) (ha : ∀ a ∈ as, HostWrites a) :
     HInv (run true false s as) := by
   induction as generalizing s with
@@ -271,6 +308,7 @@ def CInv (w : Nat) (s : State) : Prop :=
 def ClientWrites (w : Nat) : Act → Prop
   | .publishH _ => False
   | .publishC i _ => i = w
+  | .snapshotH _ => False     -- a snapshot taken while the host is only a reader of the uuid is the recorded finding D17
   | _ => True
 
 /-- the clients of the next state are the image of the old ones under an id-preserving map -/
@@ -320,6 +358,7 @@ theorem cinv_step (w : Nat) (hw0 : w ≠ 0) (s : State) (a : Act) (hn : (s.clien
   obtain ⟨ht, hj, hc⟩ := hi
   cases a with
   | publishH v => exact absurd ha (by simp [ClientWrites])
+  | snapshotH i => exact absurd ha (by simp [ClientWrites])
   | reactH =>
     obtain ⟨r1, r2, r3, r4, r5, r6⟩ := react_reader s.host ht
     simp only [step, r1, Bool.false_eq_true, if_false]
@@ -587,6 +626,11 @@ theorem ids_step (ct sk : Bool) (s : State) (a : Act) :
     · rfl
   cases a with
   | publishH v => rfl
+  | snapshotH i =>
+    simp only [step]
+    split
+    · exact hon i _ (fun _ => rfl)
+    · rfl
   | reactH =>
     simp only [step]
     split
@@ -711,6 +755,11 @@ theorem host_content_step (s : State) (a : Act) (hi : HInv s) (ha : HostWrites a
   obtain ⟨⟨wt, wj, ws, wc, we⟩, hc⟩ := hi
   cases a with
   | publishH v => simp [step, publish, pubOf]
+  | snapshotH i =>
+    simp only [step, pubOf]
+    split
+    · simp only [snapServe]; split <;> rfl
+    · rfl
   | reactH => simp only [step, pubOf]; split <;> exact react_content s.host
   | pollH i =>
     simp only [step, pubOf]
@@ -744,6 +793,7 @@ theorem client_content_step (w : Nat) (hw0 : w ≠ 0) (s : State) (a : Act) (L :
   have hslot : ∀ c ∈ s.clients, c.id = w → c.p.slot = none := fun c hc hw => (hi.2.2 c hc hw).1.1.2.2.1
   cases a with
   | publishH v => exact absurd ha (by simp [ClientWrites])
+  | snapshotH i => exact absurd ha (by simp [ClientWrites])
   | reactH =>
     simp only [step, pubOf]; split
     · apply forall_map
